@@ -1394,15 +1394,19 @@ func validateBuildOptions(
 		if options.LegalComments.HasExternalFile() {
 			log.AddError(nil, logger.Range{}, "Cannot use linked or external legal comments without an output path")
 		}
+		hasFileLoader := false
+		hasCopyLoader := false
 		for _, loader := range options.ExtensionToLoader {
 			if loader == config.LoaderFile {
-				log.AddError(nil, logger.Range{}, "Cannot use the \"file\" loader without an output path")
-				break
+				hasFileLoader = true
+			} else if loader == config.LoaderCopy {
+				hasCopyLoader = true
 			}
-			if loader == config.LoaderCopy {
-				log.AddError(nil, logger.Range{}, "Cannot use the \"copy\" loader without an output path")
-				break
-			}
+		}
+		if hasFileLoader {
+			log.AddError(nil, logger.Range{}, "Cannot use the \"file\" loader without an output path")
+		} else if hasCopyLoader {
+			log.AddError(nil, logger.Range{}, "Cannot use the \"copy\" loader without an output path")
 		}
 
 		// Use the current directory as the output directory instead of an empty
